@@ -472,17 +472,51 @@ class Driver:
             self.construct_err = type(e).__name__
             return
         self.sn.train()
-        named = dict(self.sn.seed.named_modules())
-        self.combs = []
-        for b in range(len(net["blocks"])):
-            c = named[block_prefix(net, b) + ".sn_combiner"]
-            if not isinstance(c, SuperNetCombiner):
-                raise RuntimeError("combiner not found")
-            self.combs.append(c)
         self.CombCls = SuperNetCombiner
+        self.combs = self._find_combs(self.sn)
+        self.orig_sn, self.ocombs = None, None
         k0, c0, f0, _ = classify_modules(net, leaf_names(self.sn.seed))
         self.fixed_names = f0
         self.gen = torch.Generator().manual_seed(7919 * seed + 3)
+
+    def _find_combs(self, sn):
+        named = dict(sn.seed.named_modules())
+        out = []
+        for b in range(len(self.net["blocks"])):
+            c = named[block_prefix(self.net, b) + ".sn_combiner"]
+            if not isinstance(c, self.CombCls):
+                raise RuntimeError("combiner not found")
+            out.append(c)
+        return out
+
+    def _write_alpha(self, sn, combs, b: int, vals10k: List[int], how: str) -> str:
+        """Write the coefficients of block b the way user code does: in place (copy_), by rebinding .data,
+        through load_state_dict, or with a real optimizer step.  Returns the write kind actually used."""
+        torch = self.torch
+        comb = combs[b]
+        vals = torch.tensor([v / SCALE for v in vals10k], dtype=torch.float32)
+        if how == "optim" and not comb.alpha.requires_grad:
+            how = "copy"
+        if how == "copy":
+            with torch.no_grad():
+                comb.alpha.copy_(vals)
+        elif how == "data":
+            comb.alpha.data = vals.clone()
+        elif how == "load":
+            key = [k for k, v in sn.named_parameters() if v is comb.alpha]
+            if len(key) != 1:
+                raise RuntimeError("alpha not found among the parameters")
+            sd = sn.state_dict()
+            sd[key[0]] = vals.clone()
+            sn.load_state_dict(sd)
+        elif how == "optim":
+            opt = torch.optim.SGD([comb.alpha], lr=1.0)
+            comb.alpha.grad = (comb.alpha.detach() - vals).clone()
+            opt.step()
+            comb.alpha.grad = None
+        else:
+            raise ValueError(how)
+        return how
 
     # ---- abstract description handed to TLC
     def net_record(self) -> Dict[str, Any]:
@@ -512,11 +546,26 @@ class Driver:
         torch = self.torch
         a = ev["a"]
         out = dict(ev)
-        if a == "alpha":                      # in-place update, like an optimizer step / load_state_dict
-            vals = torch.tensor([v / SCALE for v in ev["vals"]], dtype=torch.float32)
-            with torch.no_grad():
-                self.combs[ev["b"]].alpha.copy_(vals)
+        if a == "alpha":                      # the coefficients of one block are written (see _write_alpha)
+            out["how"] = self._write_alpha(self.sn, self.combs, ev["b"], ev["vals"], ev.get("how", "copy"))
             out["vals"] = self.alpha()[ev["b"]]            # what the parameter really holds (x10^4)
+        elif a == "fork":                     # two objects: go on with a deep copy, keep the original aside
+            import copy as _copy
+            self.orig_sn, self.ocombs = self.sn, self.combs
+            self.sn = _copy.deepcopy(self.sn)
+            self.combs = self._find_combs(self.sn)
+            if any(c is o for c, o in zip(self.combs, self.ocombs)):
+                raise RuntimeError("deepcopy returned the same combiner objects")
+        elif a == "oalpha":                   # ... and perturb the ORIGINAL
+            out["how"] = self._write_alpha(self.orig_sn, self.ocombs, ev["b"], ev["vals"], ev.get("how", "copy"))
+        elif a == "ohard":
+            self.orig_sn.update_softmax_options(hard=bool(ev["v"]))
+        elif a == "omode":
+            self.orig_sn.train(bool(ev["training"]))
+        elif a == "ofwd":                     # forward pass of the original in training mode
+            self.orig_sn.train()
+            with torch.no_grad():
+                self.orig_sn(self.x)
         elif a == "hard":
             self.sn.update_softmax_options(hard=bool(ev["v"]))
         elif a == "temp":
@@ -716,6 +765,9 @@ def concrete_net(skel: Dict[str, Any], idx: int) -> Dict[str, Any]:
     return net
 
 
+WRITE_KINDS = ["copy", "data", "load", "optim"]
+
+
 def cost4() -> List[Dict[str, Any]]:
     return [{"a": "cost", "metric": m, "full": f} for m in ("params", "ops") for f in (False, True)]
 
@@ -724,9 +776,16 @@ def path_events(net: Dict[str, Any], path: List[str], rng) -> List[Dict[str, Any
     ev = []
     for lab in path:
         name, args = parse_action(lab)
-        if name == "SetAlpha":
+        if name in ("SetAlpha", "OSetAlpha"):
             b, w = args[0] - 1, args[1]
-            ev.append({"a": "alpha", "b": b, "vals": ranking_vals(len(net["blocks"][b]["kinds"]), w, rng)})
+            ev.append({"a": "alpha" if name == "SetAlpha" else "oalpha", "b": b, "how": rng.choice(WRITE_KINDS),
+                       "vals": ranking_vals(len(net["blocks"][b]["kinds"]), w, rng)})
+        elif name == "Fork":
+            ev.append({"a": "fork"})
+        elif name == "OSetHard":
+            ev.append({"a": "ohard", "v": bool(args[0])})
+        elif name == "OForward":
+            ev.append({"a": "ofwd"})
         elif name == "SetHard":
             ev.append({"a": "hard", "v": bool(args[0])})
         elif name == "SetMode":
@@ -740,11 +799,20 @@ def path_events(net: Dict[str, Any], path: List[str], rng) -> List[Dict[str, Any
     return ev
 
 
-def observe_block(prop: str, state: Dict[str, Any]) -> List[Dict[str, Any]]:
-    """What is observed on the real object in a replayed state."""
+def observe_block(prop: str, state: Dict[str, Any], net: Dict[str, Any], rng) -> List[Dict[str, Any]]:
+    """What is observed on the real object in a replayed state.  The coefficients are first re-written
+    (values change, winners stay - the abstract state is the same): always for one-branch blocks, whose
+    coefficient must be irrelevant, sometimes for the others; every write kind is used."""
+    ev: List[Dict[str, Any]] = []
+    for b, blk in enumerate(net["blocks"]):
+        n = len(blk["kinds"])
+        if n == 1 or rng.random() < 0.3:
+            ev.append({"a": "alpha", "b": b, "how": rng.choice(WRITE_KINDS),
+                       "vals": ranking_vals(n, state["win"][b], rng)})
+    forked = bool(state.get("orig", {}).get("on"))
     if prop == "C03":
-        return [{"a": "export"}]
-    ev = cost4() + [{"a": "fwd"}] + cost4()
+        return ev + ([{"a": "summary"}] if forked else []) + [{"a": "export"}]
+    ev += cost4() + [{"a": "fwd"}] + ([{"a": "summary"}] if forked else []) + cost4()
     if state["hard"] and not (state["net"]["gumbel"] and state["training"]):
         ev += [{"a": "export"}] + cost4()
     return ev
@@ -769,7 +837,7 @@ def graph_scenarios(prop: str, nodes, edges, init, seed: int, label: str, sample
         st = nodes[i]
         net = concrete_net(st["net"], k)
         r2 = _random.Random(f"{seed}:{label}:{i}")
-        ev = path_events(net, paths[i], r2) + observe_block(prop, st)
+        ev = path_events(net, paths[i], r2) + observe_block(prop, st, net, r2)
         out.append({"kind": "state:" + label, "prop": prop, "net": net, "seed": seed * 7919 + k, "events": ev,
                     "winners": list(st["win"]), "path": paths[i]})
     return out
@@ -777,12 +845,12 @@ def graph_scenarios(prop: str, nodes, edges, init, seed: int, label: str, sample
 
 def random_net(rng, tier: str) -> Dict[str, Any]:
     nb = rng.choice([1, 1, 2, 2, 3])
-    sizes = [2, 3, 4, 5, 6, 8, 11, 12]
+    sizes = [1, 2, 3, 4, 5, 6, 8, 11, 12]
     blocks = []
     hw0 = rng.choice([4, 6])
     hw = hw0
     for _ in range(nb):
-        n = rng.choice(sizes if nb < 3 else sizes[:6])
+        n = rng.choice(sizes if nb < 3 else sizes[:7])
         kinds = [rng.choice(KINDS) for _ in range(n)]
         uses = rng.choice([1, 1, 2])
         pool = uses == 2 and hw % 2 == 0 and rng.random() < 0.4      # 2x2 average pooling needs an even size
@@ -852,11 +920,27 @@ def random_scenario(prop: str, rng, tier: str, k: int, seed: int) -> Dict[str, A
     net = random_net(rng, tier)
     ev: List[Dict[str, Any]] = []
     L = rng.randint(6, 16)
+    forked = False
+    k_fork = rng.randint(0, 8) if rng.random() < 0.4 else -1      # position of a deep copy, if any
     for _ in range(L):
         r = rng.random()
+        if forked and rng.random() < 0.25:                # perturb the original
+            q = rng.random()
+            if q < 0.5:
+                b = rng.randrange(len(net["blocks"]))
+                ev.append({"a": "oalpha", "b": b, "how": rng.choice(WRITE_KINDS),
+                           "vals": random_alpha(rng, len(net["blocks"][b]["kinds"]))})
+            elif q < 0.7:
+                ev.append({"a": "ohard", "v": rng.random() < 0.5})
+            else:
+                ev.append({"a": "ofwd"})
+        if not forked and k_fork == len(ev):
+            forked = True
+            ev.append({"a": "fork"})
         if r < 0.30:
             b = rng.randrange(len(net["blocks"]))
-            ev.append({"a": "alpha", "b": b, "vals": random_alpha(rng, len(net["blocks"][b]["kinds"]))})
+            ev.append({"a": "alpha", "b": b, "how": rng.choice(WRITE_KINDS),
+                       "vals": random_alpha(rng, len(net["blocks"][b]["kinds"]))})
         elif r < 0.40:
             ev.append({"a": "hard", "v": rng.random() < 0.6})
         elif r < 0.47:
@@ -957,7 +1041,11 @@ def run_check(pid: str, tier: str, seed: int, replay, plan: Dict[str, Any]) -> i
             nodes, edges, init = tlc.parse_dot(dot)
             if len(nodes) != res.distinct:
                 raise tlc.MachineryError(f"{cfg}: dump has {len(nodes)} states, TLC reported {res.distinct}")
-            pref = (lambda st: any(w in (1, 10, 11) for w in st["win"])) if "big" in label else None
+            pref = None
+            if "big" in label:
+                pref = lambda st: any(w in (1, 10, 11) for w in st["win"])                       # noqa: E731
+            elif "fork" in label:      # copy and original disagree on a winner
+                pref = lambda st: bool(st["orig"].get("on")) and list(st["orig"]["win"]) != list(st["win"])  # noqa: E731
             new = graph_scenarios(pid, nodes, edges, init, seed, label, sample=sample, prefer=pref)
             counts[label] = {"states": len(nodes), "replayed": len(new)}
             scs += new
